@@ -18,6 +18,7 @@ This module is **private, for internal use by SQLAlchemy**.
 
 from __future__ import annotations
 
+import re
 from typing import Type
 
 from . import exc as orm_exc
@@ -408,19 +409,55 @@ class _EvaluatorCompiler:
             lambda a, b: a + b, eval_left, eval_right, clause
         )
 
+    @classmethod
+    def _like_pattern_to_regex(cls, pattern, escape):
+        """regular expression for the body of a LIKE pattern.
+
+        startswith() / endswith() render ``x LIKE <other> || '%'``, so the
+        wildcards ``%`` and ``_`` inside <other> are live unless preceded
+        by the escape character.
+
+        """
+        regex = []
+        chars = iter(pattern)
+        for char in chars:
+            if escape and char == escape:
+                char = next(chars, None)
+                if char is None:
+                    # dangling escape character: matches nothing
+                    return "(?!)"
+                regex.append(re.escape(char))
+            elif char == "%":
+                regex.append(".*")
+            elif char == "_":
+                regex.append(".")
+            else:
+                regex.append(re.escape(char))
+        return "".join(regex)
+
     def visit_startswith_op_binary_op(
         self, operator, eval_left, eval_right, clause
     ):
+        escape = clause.modifiers.get("escape")
+
+        def startswith(a, b):
+            regex = self._like_pattern_to_regex(b, escape)
+            return re.match(regex, a, re.DOTALL) is not None
+
         return self._straight_evaluate(
-            lambda a, b: a.startswith(b), eval_left, eval_right, clause
+            startswith, eval_left, eval_right, clause
         )
 
     def visit_endswith_op_binary_op(
         self, operator, eval_left, eval_right, clause
     ):
-        return self._straight_evaluate(
-            lambda a, b: a.endswith(b), eval_left, eval_right, clause
-        )
+        escape = clause.modifiers.get("escape")
+
+        def endswith(a, b):
+            regex = ".*" + self._like_pattern_to_regex(b, escape)
+            return re.fullmatch(regex, a, re.DOTALL) is not None
+
+        return self._straight_evaluate(endswith, eval_left, eval_right, clause)
 
     def visit_unary(self, clause):
         eval_inner = self.process(clause.element)
